@@ -635,16 +635,23 @@ macro_rules! wrap_impl_sint {
     ($($T:ty)+) => {
         $(
             impl Wrap for $T {
-                // https://stackoverflow.com/a/707426
-                fn wrapped_between(mut self, lower: Self, upper: Self) -> Self {
+                fn wrapped_between(self, lower: Self, upper: Self) -> Self {
                     assert!(lower < upper);
                     assert!(lower >= Self::zero());
                     assert!(upper > Self::zero());
                     let range_size = upper - lower /*+ Self::one()*/;
-                    if self < lower {
-                        self += range_size * ((lower-self)/range_size + Self::one());
+                    // Only work with remainders, so that no intermediate value
+                    // leaves the range of the type (e.g. for `self` close to MIN).
+                    let mut a = self % range_size;
+                    if a < Self::zero() {
+                        a += range_size;
                     }
-                    lower + (self - lower) % range_size
+                    let b = lower % range_size;
+                    let mut d = a - b;
+                    if d < Self::zero() {
+                        d += range_size;
+                    }
+                    lower + d
                 }
                 fn wrapped(self, upper: Self) -> Self {
                     assert!(upper > Self::zero());
